@@ -282,7 +282,7 @@ def run(ctx):
     ctx.extra['uncatalogued_public_names'] = un
     if un:
         ctx.harness_errors.append('catalogue out of date: %s exported by spatialmath.base but not catalogued' % un)
-    reps = 8 if ctx.tier == 'quick' else 100
+    reps = 8 if ctx.tier == 'quick' else 300
     i = 0
     for ei, e in enumerate(ENTRIES):
         pos, kpos = vec_positions(e)
